@@ -5,6 +5,7 @@ from .. import obscure, codec
 
 NEED_DEPS = True
 REQUIRES = ['encrypt']
+USES_QUERIES = True
 EXPLANATION = (
     "FLOW/GUARD rules. C08.1: payload/declared-digest pairing at each of the per-case encryption sinks (same rule as C02.2). "
     "C08.2: in decrypt_subject every Ok exit is dominated by the passing edge of digest(decoded) == declared digest, where "
